@@ -19,8 +19,8 @@ import MetapypeModel.Model.Equal
 namespace Metapype
 
 /-- no statement reachable from a read-only entry point writes to an object of the tree or the registry:
-    every inventoried write goes to a fresh local, to the per-call state of a `Rule` object, or to a
-    collector list owned by the caller -/
+    every inventoried write goes to a fresh local, to the own fields of a non-tree object of the package (the per-call
+    `Rule` object, a private helper object), to a collector owned by the caller, or to a module-level cache object -/
 theorem C11_no_tree_write_site : ∀ s ∈ Gen.writeSites, s.2.2.2.2 ≠ "tree" := by decide +kernel
 
 /-- the inventory is not vacuous: it starts from the public read-only entry points (validation, evaluation, both exporters,
